@@ -16,7 +16,7 @@ if HERE not in sys.path:
     sys.path.insert(0, HERE)
 
 SPEC_MODULES = ['spec.calendar', 'spec.strings', 'spec.css_sem']
-CONTRACT_MODULES = ['contracts.inputs', 'contracts.strings', 'contracts.nav', 'contracts.match', 'contracts.lemmas', 'contracts.parser']
+CONTRACT_MODULES = ['contracts.inputs', 'contracts.strings', 'contracts.nav', 'contracts.match', 'contracts.lemmas', 'contracts.parser', 'contracts.util']
 VOCAB_MODULES = ['pyvc.rx_rules', 'pyvc.prims_sym', 'pyvc.tree']
 
 
@@ -100,6 +100,8 @@ def verify_function(world, qual, timeout_ms=5000, cover=True, mutate=None, want_
         r = solve.check(world, ob, timeout_ms=timeout_ms, depth=c.unfold, prefer_cvc5=getattr(c, 'prefer_cvc5', False))
         entry = dict(id=ob.id, kind=ob.kind, desc=ob.desc, line=ob.line, result=r['result'],
                      backend=r['backend'], time=r['time'], model=r['model'])
+        if r.get('second') is not None:
+            entry['second'] = r['second']
         if r['result'] == 'refuted' and want_models and r.get('z3model') is not None and mutate is None:
             from . import replay
             try:
